@@ -163,6 +163,9 @@ def stub_formatting():
     _hci.HCI_Object.format_fields = staticmethod(lambda *a, **k: '')
     _hci.HCI_Object.stringify_field = staticmethod(lambda *a, **k: '')
     _hci.HCI_Object.format_field_value = staticmethod(lambda *a, **k: '')
+    for cls in (_hci.HCI_Command, _hci.HCI_Event, _hci.HCI_AclDataPacket, _hci.HCI_SynchronousDataPacket, _hci.HCI_IsoDataPacket,
+                _hci.HCI_Command_Complete_Event, _hci.HCI_LE_Meta_Event):
+        cls.__str__ = lambda self: getattr(self, 'name', type(self).__name__)
     try:
         from bumble import att as _att, smp as _smp, l2cap as _l2cap, sdp as _sdp
         for cls in [_att.ATT_PDU] + list(_att.ATT_PDU.pdu_classes.values()):
